@@ -12,7 +12,7 @@ for d in sorted(os.listdir(SEEDED)):
     title = readme.split("\n", 1)[0].lstrip("# ").strip()
     secs = re.split(r"^## ", readme, flags=re.M)
     need = next((s.split("\n", 1)[1].strip() for s in secs if re.match(r"What is needed", s)), "")
-    change = next((s.split("\n", 1)[1].strip() for s in secs if re.match(r"(The change|Change)", s)), "")
+    change = next((s.split("\n", 1)[1].strip() for s in secs if re.match(r"(The change|Change|What the change does|What it does|What changed|Mechanism)", s)), "")
     res = json.load(open(os.path.join(p, "result.json"))) if os.path.exists(os.path.join(p, "result.json")) else None
     prop = d.split("-")[0]
     meta = {"property": prop, "property_title": props[prop], "change": title, "files_changed": sorted(set(re.findall(r"^\+\+\+ b/(\S+)", open(os.path.join(p, "patch.diff")).read(), re.M))),
